@@ -3,8 +3,10 @@ C01 / C13 / C09 — **Layer B**: from abstract commands to bytes.
 
 What is proved here (kernel-checked, no bound on sizes, histories, runes, colours or styles):
 
-* `db_xtermlike` — 22 entries of the regenerated terminal database are in the class `LayerB.XtermLike` (every
-  capability string the draw path uses is one of the listed standard ECMA-48 / xterm forms).
+* `db_layerB` — 41 of the 49 entries of the regenerated terminal database are in the class `LayerB.XtermLike` (every capability
+  string the draw path uses is, once TPuts has removed its padding, one of the listed standard ECMA-48 / xterm forms, or absent
+  where the library tolerates that); `db_outside` — the other eight are the four corner-trick entries (beterm, cygwin, sun,
+  sun-color) and the four entries that do not speak ECMA-48 (hpterm, vt52, wy50, wy60).
 * `rwClip_ok` — the regenerated go-runewidth table, restricted to Go's `rune` range, satisfies the hypotheses
   `RwOk` and `LayerB.RwB` made about the rune-width function.
 * `show_faithful_bytes_partial` — **the byte-level reference emulator** (`Spec.Ecma48`), fed exactly the bytes
@@ -20,34 +22,54 @@ What is proved here (kernel-checked, no bound on sizes, histories, runes, colour
 
 * **`xl_show_faithful_bytes`, `xl_sync_faithful_bytes`, `xl_output_wellformed`, `xl_rep_after`** and their database instances
   **`db_show_faithful_bytes`, `db_sync_faithful_bytes`, `db_output_wellformed`** — the same statements WITHOUT the hypothesis
-  `CfgB` for every terminal description in `XtermLike` (the 22 database entries; also those entries after LookupTerminfo
+  `CfgB` for every terminal description in `XtermLike` (the 41 database entries; also those entries after LookupTerminfo
   has added the direct-colour strings, `tiDirect_xl`), for the configuration the driver builds (`drawCfgOf`/`renderCfgOf`).
-  `CapsFx` is proved for the class in `Lemmas/LayerBXtermFx.lean` (`xl_capsFx`): `xl_setPen_effect` (the whole style block
-  for EVERY style without hyperlink: sgr0, sendFgBg with default / reset / palette / direct / fitted colours through
-  setaf, setab, setfgbg, the three RGB strings, bold, underline colour indexed / direct / reset + smul + the four underline
-  styles, reverse, blink, dim, italic, strike, OSC 8 off → pen = `penOf rc s` exactly), `xl_show_effect` (the four `cnorm`
-  forms + DECSCUSR for cursor styles 0…6), `xl_clear_effect` (sgr0 + OSC 8 off + colours + either `clear` form: every cell a
-  known blank with the style's background, cursor home).  Non-vacuity: `bDemo`, `bDirect` (kernel-evaluated emulator grid).
+  `CapsFx` is proved for the class in `Lemmas/LayerBXtermFx.lean` (`xl_capsFx`): `xl_goto_effect` (`cup` with or without
+  `$<5>` / `$<10>`), `xl_setPen_effect` (the whole style block for EVERY style without hyperlink: sgr0 in nine forms, sendFgBg
+  with default / reset (`op` in three forms) / palette / direct / fitted colours through setaf, setab, setfgbg in five families of
+  spellings, the three RGB strings, or — monochrome — nothing but a flip of reverse video; bold, underline colour indexed / direct / reset + smul + the
+  four underline styles, reverse, blink, dim, italic, strike — each possibly absent or padded —, OSC 8 off where the screen has
+  hyperlink strings → pen = `penOf rc s` exactly), `xl_hide_effect` (two `civis` forms), `xl_show_effect` (five `cnorm` forms or
+  none + DECSCUSR for cursor styles 0…6), `xl_clear_effect` (sgr0 + OSC 8 off + colours + either `clear` form, padded or not:
+  every cell a known blank with the style's background, cursor home).  Non-vacuity: `bDemo`, `bDirect` (xterm-256color), `bVt`
+  (vt100: monochrome, padded, no civis, no OSC 8) — kernel-evaluated emulator grids.
+
+* **the bottom-right corner trick at the level of bytes** (`Lemmas/LayerBCorner.lean`): `sim_insertChar` — the simulation step for
+  `Cmd.insertChar` (`ich1` = `CSI @` = ICH on the emulator vs `ATerm.insertAt`) in the situation the trick creates;
+  `corner_trick_bytes` / `xl_corner_trick_bytes` — `goto (w-2,y); setPen s; put glyph; goto (w-2,y); ich1` from ANY represented
+  state puts the glyph with `penOf rc s` into the LAST column, cursor known in column `w-2`, no wrap pending, no complaint, for
+  every description with `CapsFx` (in particular `CapsOk` = the class without its no-corner-trick condition);
+  `cygwin_corner_bytes` — the database instance with no hypothesis on the terminal (`db_corner_caps`: cygwin is the one
+  corner-trick entry all of whose strings are in the class), `bCyg` — the model's whole Show on cygwin, kernel-evaluated.
+  NOT done: the history theorems for the four corner-trick entries (`draw_admits` still asks `c.Plain`).
 
 The generic theorems keep the suffix `_partial` because they are relative to `CfgB`; for the `xl_`/`db_` theorems what remains
 assumed / outside is:
   (1) `FitOk rc` — the colour-fitting function (go-colorful's nearest-colour search, an external function, parameter
-      `RenderCfg.fit`) returns an entry of the screen's palette.  Nothing else is assumed about it: the theorem holds for
-      whatever palette entry it picks, and `penOf` names that entry.  `fitOk_findColor` / `xl_fitOk_findColor`: tcell's own
-      `FindColor` scan (model `Color.findColor`) over the screen's palette satisfies it for ANY colour distance, so what is
-      really assumed is only that the `fit` table the model is run with is that scan (checked per run by the correspondence).
-  (2) hyperlinks (`Style.url ≠ ""`), cursor-colour requests, the four corner-trick entries and terminals without a
-      hide-cursor string are outside the domain (`OpB`, `XtermLike`); terminals outside `XtermLike` (27 database entries,
-      see `db_xtermlike`) are covered only by the generic `_partial` theorems.
+      `RenderCfg.fit`) returns an entry of the screen's palette, if the screen has a palette (nothing on monochrome terminals).
+      Nothing else is assumed about it: the theorem holds for whatever palette entry it picks, and `penOf` names that entry.
+      `fitOk_findColor` / `xl_fitOk_findColor`: tcell's own `FindColor` scan (model `Color.findColor`) over the screen's
+      palette satisfies it for ANY colour distance, so what is really assumed is only that the `fit` table the model is run
+      with is that scan (checked per run by the correspondence).
+  (2) hyperlinks (`Style.url ≠ ""`), cursor-colour requests and the four corner-trick entries are outside the domain (`OpB`,
+      `XtermLike`); terminals outside `XtermLike` (8 database entries, see `db_outside`) are covered only by the generic
+      `_partial` theorems.
   (3) the bytes written by Init (engage) are not modelled here: the emulator state `e0` at the start is any state with
-      the parser in the ground state, UTF-8, no alternate character set, replace mode and no complaint (`Good`).
-  (4) `XtermLike` asks, beyond the standard forms, that the direct-colour strings come all three or not at all and that the
-      indexed / direct underline-colour strings come together (true of every entry and of what tcell synthesises; `penOf`
-      would otherwise have to name which of the strings exist).
+      the parser in the ground state, UTF-8, no alternate character set, replace mode and no complaint (`Good`) that is `Quiet`:
+      on a terminal for which the screen has no hyperlink strings no hyperlink is active, on a terminal without `civis`/`cnorm`
+      the cursor is visible (vacuous for entries that have both, e.g. the xterm family; true of `Term.init`, `quiet_init`).  The library
+      cannot re-establish either — it writes nothing — so the environment move `corrupt` leaves the hyperlink state of such a
+      terminal alone (`LayerB.corruptFor`; cursor visibility is never touched by `corrupt`).
+  (4) `XtermLike` asks, beyond the standard forms, that the direct-colour strings come all three or not at all, that the
+      indexed / direct underline-colour strings come together and that `civis` / `cnorm` come together (true of every entry and
+      of what tcell synthesises; `penOf` would otherwise have to name which of the strings exist).
+  (5) on a terminal without `civis` an off-screen cursor is not hidden but parked: `DisplaysBytes.parked` (the emulator's cursor
+      is in the bottom-right cell), `DisplaysBytes.hidden` only speaks about terminals with `civis`.
 -/
 import Tcell.Lemmas.LayerBWorld
 import Tcell.Lemmas.LayerBXterm
 import Tcell.Lemmas.LayerBXtermFx
+import Tcell.Lemmas.LayerBCorner
 import Tcell.Props.C01
 import Tcell.Props.C09
 namespace Tcell.Props.C01B
@@ -55,23 +77,43 @@ open Tcell Tcell.LayerB Tcell.Spec.Ecma48
 
 /-! ### the class over the regenerated database -/
 
-def xtermLikeNames : List String :=
-  ["alacritty", "alacritty-direct", "gnome", "gnome-256color", "konsole", "konsole-256color", "rxvt", "rxvt-256color",
-   "rxvt-88color", "screen", "screen-256color", "st", "st-256color", "tmux", "tmux-256color", "xfce", "xterm",
-   "xterm-256color", "xterm-88color", "xterm-direct", "xterm-ghostty", "xterm-kitty"]
+/-- the 41 entries of the built-in database Layer B is proved for -/
+def layerBNames : List String :=
+  ["aixterm", "alacritty", "alacritty-direct", "ansi", "dtterm", "eterm", "eterm-color", "foot", "gnome", "gnome-256color", "konsole",
+   "konsole-256color", "kterm", "linux", "pcansi", "rxvt", "rxvt-256color", "rxvt-88color", "rxvt-unicode", "rxvt-unicode-256color",
+   "screen", "screen-256color", "st", "st-256color", "tmux", "tmux-256color", "vt100", "vt102", "vt220", "vt320", "vt400",
+   "vt420", "wy99-ansi", "wy99a-ansi", "xfce", "xterm", "xterm-256color", "xterm-88color", "xterm-direct", "xterm-ghostty",
+   "xterm-kitty"]
+
+/-- the entries outside, by reason -/
+def cornerTrickNames : List String := ["beterm", "cygwin", "sun", "sun-color"]
+def nonEcmaNames : List String := ["hpterm", "vt52", "wy50", "wy60"]
 
 set_option maxRecDepth 100000 in
-/-- exactly these 22 entries of the built-in database are `XtermLike`.  The other ECMA-48 entries fall outside because:
-dtterm, vt220/320/400/420, vt100/102, ansi, pcansi, aixterm, eterm(-color), kterm, sun(-color), cygwin, beterm — no mouse /
-xterm flag, so the library derives no hyperlink strings (and several have no colours, padding in `cup`, or the corner
-trick); linux — `civis`/`cnorm` carry an extra `CSI ? c`; foot — colon form `38:5:n` in `setaf`; rxvt-unicode(-256color)
-— plain `38;5;n` `setaf` and the corner trick; wy99(a)-ansi — `sgr0` with `CSI " q`. -/
-theorem db_xtermlike : (Gen.db.all fun e => XtermLike e == xtermLikeNames.contains e.name) = true := by decide +kernel
+/-- exactly these 41 of the 49 entries of the built-in database are in the class `XtermLike`.  Compared with the 22 entries of
+the xterm family the class started with, it now admits: descriptions for which the library derives no hyperlink strings
+(no mouse / xterm flag: dtterm, ansi, eterm(-color), vt100…vt420, wy99(a)-ansi; the linux console), no `civis`/`cnorm`
+(ansi, eterm(-color), kterm, vt100, vt102: the cursor is parked at the bottom-right corner instead), no colours at all
+(eterm, vt100…vt420, wy99(a)-ansi: nothing is written for a colour, a dark foreground flips reverse video), `$<n>` padding
+after `cup` / `sgr0` / `clear` / `smul` / `bold` / `rev` / `blink` (vt100, vt102, vt400, vt420, wy99(a)-ansi: TPuts strips it),
+`civis`/`cnorm` with the linux console's `CSI ? n c`, `sgr0` with `CSI " q` (wy99) or `;10 … ESC ( B`, and the palette
+strings `%p1%{30}%+%d` (eterm-color), always-`38;5;n` (rxvt-unicode(-256color)) and `38:5:n` (foot); aixterm and pcansi, whose
+`op` does not restore the default colours but SETS colours (`CSI 32 m CSI 40 m`, `CSI 37;40 m`): a style with `ColorReset`
+is shown green / white on black there, and that is what `penOf` says (`opSel`, `fgSel`, `bgSel`).  Outside (`db_outside`):
+the four corner-trick entries; hpterm, vt52, wy50, wy60 do not speak ECMA-48. -/
+theorem db_layerB : (Gen.db.all fun e => XtermLike e == layerBNames.contains e.name) = true := by decide +kernel
 
-theorem db_xtermlike' : ∀ e ∈ Gen.db, e.name ∈ xtermLikeNames → XtermLike e = true := by
+/-- the eight entries outside the class are exactly the two named groups -/
+theorem db_outside : (Gen.db.all fun e => XtermLike e ||
+    (cornerTrickNames ++ nonEcmaNames).contains e.name) = true ∧
+    (Gen.db.all fun e => cornerTrickNames.contains e.name ==
+      (e.autoMargin && e.disableAutoMargin.isEmpty && !e.insertChar.isEmpty)) = true := by
+  constructor <;> decide +kernel
+
+theorem db_layerB' : ∀ e ∈ Gen.db, e.name ∈ layerBNames → XtermLike e = true := by
   intro e he hn
-  have := List.all_eq_true.mp db_xtermlike e he
-  have hc : xtermLikeNames.contains e.name = true := by simpa using hn
+  have := List.all_eq_true.mp db_layerB e he
+  have hc : layerBNames.contains e.name = true := by simpa using hn
   rw [hc] at this; simpa using this
 
 /-! ### the rune-width table satisfies the Layer-B hypotheses -/
@@ -153,9 +195,9 @@ theorem init_bwinv (w h : Int) (hs : SizeOk w h) : BWInv c (World.init w h) :=
   { b := { buf := BufB.resize (fun _ _ => cellB_default c.rw) w h, style := rfl, size := hs, ccol := ⟨(by decide : Color.valid 0 = false), (by decide : (0 : Nat) ≠ colorReset)⟩ },
     tty := hs }
 
-theorem init_rep (w h : Int) (e0 : Term) (he : Good c.rw e0) (hw : (e0.grid.w : Int) = w) (hh : (e0.grid.h : Int) = h) :
-    Rep c rc e0 (World.init w h).t :=
-  { good := he, w := hw, h := hh, cells := fun _ _ _ _ => trivial, conts := fun _ _ _ => Or.inr rfl,
+theorem init_rep (w h : Int) (e0 : Term) (he : Good c.rw e0) (hq : Quiet rc e0) (hw : (e0.grid.w : Int) = w)
+    (hh : (e0.grid.h : Int) = h) : Rep c rc e0 (World.init w h).t :=
+  { good := he, quiet := hq, w := hw, h := hh, cells := fun _ _ _ _ => trivial, conts := fun _ _ _ => Or.inr rfl,
     cur := by intro x y h; simp [World.init] at h
     pen := by intro s h; simp [World.init] at h
     vis := by intro b h; simp [World.init] at h
@@ -169,17 +211,17 @@ theorem after_wd (w h : Int) (e0 : Term) (ops : List ScrOp) : (after c rc w h e0
   run_wd c rc ops _
 
 /-- **Rep after every history** (the simulation invariant, usable between Shows) -/
-theorem rep_after_partial (hc : CfgB c rc) (w h : Int) (hs : SizeOk w h) (e0 : Term) (he : Good c.rw e0)
+theorem rep_after_partial (hc : CfgB c rc) (w h : Int) (hs : SizeOk w h) (e0 : Term) (he : Good c.rw e0) (hq : Quiet rc e0)
     (hw : (e0.grid.w : Int) = w) (hh : (e0.grid.h : Int) = h) (ops : List ScrOp) (hv : ∀ op ∈ ops, op.Valid c ∧ OpB c op) :
     Rep c rc (after c rc w h e0 ops).e (after c rc w h e0 ops).wd.t :=
-  rep_reach hc ops _ (init_inv hc.rwOk w h) (init_bwinv w h hs) (init_rep w h e0 he hw hh) hv
+  rep_reach hc ops _ (init_inv hc.rwOk w h) (init_bwinv w h hs) (init_rep w h e0 he hq hw hh) hv
 
 /-- **C09, draw histories**: whatever the history, the strict tokenizer of the reference emulator has accepted every
 byte the model wrote (no complaint) and the stream ends in the ground state (every control sequence is complete). -/
-theorem output_wellformed_partial (hc : CfgB c rc) (w h : Int) (hs : SizeOk w h) (e0 : Term) (he : Good c.rw e0)
+theorem output_wellformed_partial (hc : CfgB c rc) (w h : Int) (hs : SizeOk w h) (e0 : Term) (he : Good c.rw e0) (hq : Quiet rc e0)
     (hw : (e0.grid.w : Int) = w) (hh : (e0.grid.h : Int) = h) (ops : List ScrOp) (hv : ∀ op ∈ ops, op.Valid c ∧ OpB c op) :
     (after c rc w h e0 ops).e.malformed = [] ∧ (after c rc w h e0 ops).e.st = .ground :=
-  let R := rep_after_partial hc w h hs e0 he hw hh ops hv
+  let R := rep_after_partial hc w h hs e0 he hq hw hh ops hv
   ⟨R.good.mal, R.good.st⟩
 
 /-- what the emulator grid shows for the cells Layer A's `Displays` speaks about: every clean unlocked cell (every cell the
@@ -203,7 +245,11 @@ structure DisplaysBytes (c : DrawCfg) (rc : RenderCfg) (b : BWorld) : Prop where
   cursor : b.wd.sw.s.cells.inRange b.wd.sw.s.cursorx b.wd.sw.s.cursory →
     b.e.cursorKnown = true ∧ (b.e.cx : Int) = b.wd.sw.s.cursorx ∧ (b.e.cy : Int) = b.wd.sw.s.cursory ∧
     b.e.pendingWrap = false ∧ b.e.modes.cursorVisible = true
-  hidden : ¬ b.wd.sw.s.cells.inRange b.wd.sw.s.cursorx b.wd.sw.s.cursory → b.e.modes.cursorVisible = false
+  hidden : ¬ b.wd.sw.s.cells.inRange b.wd.sw.s.cursorx b.wd.sw.s.cursory → c.hasHide = true → b.e.modes.cursorVisible = false
+  /-- a terminal without a hide-cursor string: the cursor is parked in the bottom-right cell (tscreen.go:1041) -/
+  parked : ¬ b.wd.sw.s.cells.inRange b.wd.sw.s.cursorx b.wd.sw.s.cursory → c.hasHide = false →
+    0 < b.wd.sw.s.w → 0 < b.wd.sw.s.h →
+    b.e.cursorKnown = true ∧ (b.e.cx : Int) = b.wd.sw.s.w - 1 ∧ (b.e.cy : Int) = b.wd.sw.s.h - 1 ∧ b.e.pendingWrap = false
 
 theorem displaysBytes_of (hc : CfgB c rc) {b : BWorld} {pre : Buf} (inv : WInv c b.wd) (R : Rep c rc b.e b.wd.t)
     (D : Displays c pre b.wd)
@@ -212,7 +258,7 @@ theorem displaysBytes_of (hc : CfgB c rc) {b : BWorld} {pre : Buf} (inv : WInv c
     intro x y hr
     have := R.w; have := R.h; have := inv.tdim; have := inv.buf.cw; have := inv.buf.ch
     simp only [Buf.inRange_iff] at hr; omega
-  refine { cells := ?_, cursor := ?_, hidden := ?_ }
+  refine { cells := ?_, cursor := ?_, hidden := ?_, parked := ?_ }
   · intro x y hr hl hdy
     obtain ⟨st', nl, hg, h1, h2, h4, h3⟩ := D.cells x y hr hl hdy
     have hd := hdim x y hr
@@ -233,8 +279,19 @@ theorem displaysBytes_of (hc : CfgB c rc) {b : BWorld} {pre : Buf} (inv : WInv c
     obtain ⟨ck, ccy, c1, _⟩ := R.cur _ _ hcur h0.1 h0.2
     obtain ⟨ccx, cpw⟩ := c1 (hdim _ _ hr).1
     exact ⟨ck, by omega, by omega, cpw, R.vis true hvis⟩
-  · intro hr
-    exact R.vis false ((D.cursor.2 hr).1 hc.hide)
+  · intro hr hh
+    exact R.vis false ((D.cursor.2 hr).1 hh)
+  · intro hr hh hw0 hh0
+    have hcur := (D.cursor.2 hr).2 hh
+    have ex : b.wd.t.clampX b.wd.sw.s.w = b.wd.sw.s.w - 1 := by
+      unfold ATerm.clampX; have := inv.tdim; split <;> (try split) <;> omega
+    have ey : b.wd.t.clampY b.wd.sw.s.h = b.wd.sw.s.h - 1 := by
+      unfold ATerm.clampY; have := inv.tdim; split <;> (try split) <;> omega
+    rw [ex, ey] at hcur
+    obtain ⟨ck, ccy, c1, _⟩ := R.cur _ _ hcur (by omega) (by omega)
+    have hgw : (b.e.grid.w : Int) = b.wd.sw.s.w := by have := R.w; have := inv.tdim; omega
+    obtain ⟨ccx, cpw⟩ := c1 (by omega)
+    exact ⟨ck, by omega, by omega, cpw⟩
 
 theorem draw_size (s : Scr) : (s.draw c).1.w = s.w ∧ (s.draw c).1.h = s.h :=
   ⟨(draw_rel c s).1.w, (draw_rel c s).1.h⟩
@@ -263,7 +320,7 @@ the display since it was last completely repainted, or the window size changed a
 emulator, having interpreted every byte the model wrote, shows in every unlocked visited cell exactly the payload last set
 there with the SGR state its style denotes (wide runes with their continuation cell, a blank for a wide rune in the last
 column), the cursor is at the requested cell and visible — or invisible if that cell is off-screen. -/
-theorem show_faithful_bytes_partial (hc : CfgB c rc) (w h : Int) (hs : SizeOk w h) (e0 : Term) (he : Good c.rw e0)
+theorem show_faithful_bytes_partial (hc : CfgB c rc) (w h : Int) (hs : SizeOk w h) (e0 : Term) (he : Good c.rw e0) (hq : Quiet rc e0)
     (hw : (e0.grid.w : Int) = w) (hh : (e0.grid.h : Int) = h) (ops : List ScrOp) (hv : ∀ op ∈ ops, op.Valid c ∧ OpB c op) :
     let b := after c rc w h e0 ops
     (b.wd.trusted = true ∨ ¬ (b.wd.sw.ttyw = b.wd.sw.s.w ∧ b.wd.sw.ttyh = b.wd.sw.s.h)) →
@@ -284,14 +341,14 @@ theorem show_faithful_bytes_partial (hc : CfgB c rc) (w h : Int) (hs : SizeOk w 
         exact ih (b0.step c rc o) (step_inv hc.rwOk hc.noCorner i0 o ho.1) (bwinv_step i0 h0 o ho.2)
           (fun o' h' => hv0 o' (List.mem_cons_of_mem _ h'))
     exact this ops _ (init_inv hc.rwOk w h) (init_bwinv w h hs) hv
-  have R := rep_after_partial hc w h hs e0 he hw hh ops hv
+  have R := rep_after_partial hc w h hs e0 he hq hw hh ops hv
   have R' := rep_step hc inv bi R .show trivial
   have inv' : WInv c (b.step c rc .show).wd := (show_step hc.rwOk hc.noCorner inv).1
   have D := (show_step hc.rwOk hc.noCorner inv).2 htr
   exact displaysBytes_of hc inv' R' D (show_size inv)
 
 /-- **Sync is faithful at the level of bytes, from arbitrary display contents** (no trust hypothesis). -/
-theorem sync_faithful_bytes_partial (hc : CfgB c rc) (w h : Int) (hs : SizeOk w h) (e0 : Term) (he : Good c.rw e0)
+theorem sync_faithful_bytes_partial (hc : CfgB c rc) (w h : Int) (hs : SizeOk w h) (e0 : Term) (he : Good c.rw e0) (hq : Quiet rc e0)
     (hw : (e0.grid.w : Int) = w) (hh : (e0.grid.h : Int) = h) (ops : List ScrOp) (hv : ∀ op ∈ ops, op.Valid c ∧ OpB c op) :
     DisplaysBytes c rc ((after c rc w h e0 ops).step c rc .sync) := by
   have hv' : ∀ op ∈ ops ++ [ScrOp.sync], op.Valid c ∧ OpB c op := by
@@ -302,7 +359,7 @@ theorem sync_faithful_bytes_partial (hc : CfgB c rc) (w h : Int) (hs : SizeOk w 
   have e : (after c rc w h e0 ops).step c rc .sync = after c rc w h e0 (ops ++ [ScrOp.sync]) := by
     simp [after, BWorld.run, List.foldl_append]
   have inv : WInv c (after c rc w h e0 ops).wd := by rw [after_wd]; exact reach_inv hc.rwOk hc.noCorner w h ops hvA
-  have R := rep_after_partial hc w h hs e0 he hw hh (ops ++ [ScrOp.sync]) hv'
+  have R := rep_after_partial hc w h hs e0 he hq hw hh (ops ++ [ScrOp.sync]) hv'
   rw [← e] at R
   exact displaysBytes_of hc (sync_step hc.rwOk hc.noCorner inv).1 R (sync_step hc.rwOk hc.noCorner inv).2.1
     (sync_size hc.rwOk inv)
@@ -312,11 +369,13 @@ theorem sync_faithful_bytes_partial (hc : CfgB c rc) (w h : Int) (hs : SizeOk w 
 
 /-- **`CfgB` for every `XtermLike` terminal description**: the only things left to assume are about the *configuration*, not
 about the terminal — the rune-width function is well-behaved (`RwOk`, `RwB`: proved for the regenerated table, `rwClip_ok`),
-the locale is UTF-8, the draw path does not use the corner trick and has a hide-cursor string (both follow from `XtermLike`
-for the configuration `drawCfgOf` the driver builds), and the external colour-fitting function returns palette entries. -/
+the locale is UTF-8, the draw path does not use the corner trick and knows whether there is a hide-cursor string (both follow
+from `XtermLike` for the configuration `drawCfgOf` the driver builds), and the external colour-fitting function returns palette
+entries. -/
 theorem cfgB_of_xtermlike (hx : XtermLike rc.ti = true) (hd : rc.d = derive rc.ti) (hfit : FitOk rc)
-    (hrw : RwOk c.rw) (hrwB : RwB c.rw) (hp : Utf8Payload c) (hpl : c.Plain) (hh : c.hasHide = true) : CfgB c rc :=
-  { rwOk := hrw, rwB := hrwB, pay := hp, noCorner := hpl, hide := hh, fx := xl_capsFx c hx hd hfit }
+    (hrw : RwOk c.rw) (hrwB : RwB c.rw) (hp : Utf8Payload c) (hpl : c.Plain) (hh : c.hasHide = !rc.ti.hideCursor.isEmpty) :
+    CfgB c rc :=
+  { rwOk := hrw, rwB := hrwB, pay := hp, noCorner := hpl, fx := xl_capsFx c (capsOk_of_xl hx) hd hfit hh }
 
 /-- the draw configuration of a terminal description in a UTF-8 locale with the regenerated width table, as the driver
 builds it (Driver/Draw.lean `mkCfgs`); `lg`/`wg`/`fz` = which repairs of drawCell / Fill the tree under test has -/
@@ -335,31 +394,16 @@ def renderCfgOf (ti : Terminfo) (tc : Bool) (fit fit0 : Nat → Nat) : RenderCfg
 theorem cfgB_of_ti (ti : Terminfo) (hx : XtermLike ti = true) (lg wg fz tc : Bool) (fit fit0 : Nat → Nat)
     (hwg : wg = true → lg = true) (hfit : FitOk (renderCfgOf ti tc fit fit0)) :
     CfgB (drawCfgOf ti lg wg fz) (renderCfgOf ti tc fit fit0) := by
-  have h1 := xl_tiOk hx
-  simp only [tiOk, Bool.and_eq_true, beq_iff_eq, and_assoc] at h1
-  obtain ⟨_, _, _, _, a5, _, _, _, _, _, _, _, _, _, _, _, _, a18, _⟩ := h1
-  refine cfgB_of_xtermlike (c := drawCfgOf ti lg wg fz) (rc := renderCfgOf ti tc fit fit0) hx rfl hfit
-    rwClip_ok.1 rwClip_ok.2 (fun _ _ => rfl) ⟨?_, hwg⟩ ?_
-  · show (ti.autoMargin && ti.disableAutoMargin.isEmpty && !ti.insertChar.isEmpty) = false
-    cases h1 : ti.autoMargin <;> cases h2 : ti.disableAutoMargin.isEmpty <;> cases h3 : ti.insertChar.isEmpty <;>
-      simp_all
-  · show (!ti.hideCursor.isEmpty) = true
-    rw [a5]; decide
+  exact cfgB_of_xtermlike (c := drawCfgOf ti lg wg fz) (rc := renderCfgOf ti tc fit fit0) hx rfl hfit
+    rwClip_ok.1 rwClip_ok.2 (fun _ _ => rfl) ⟨xl_noCorner hx, hwg⟩ rfl
 
 
 /-- `FitOk` for the configuration of an `XtermLike` entry whose colour fit is tcell's `FindColor` over the screen's palette
 (any colour distance): not an assumption about the library -/
-theorem xl_fitOk_findColor {α : Type} (m : Color.Metric α) (ti : Terminfo) (hx : XtermLike ti = true) (tc : Bool) (fit0 : Nat → Nat) :
+theorem xl_fitOk_findColor {α : Type} (m : Color.Metric α) (ti : Terminfo) (tc : Bool) (fit0 : Nat → Nat) :
     FitOk (renderCfgOf ti tc (fun c => Color.findColor m c (screenPalette (renderCfgOf ti tc (fun _ => 0) fit0))) fit0) := by
   apply fitOk_findColor m
-  · show Render.nColors (renderCfgOf ti tc (fun _ => 0) fit0) ≠ 0
-    have h1 := xl_tiOk hx
-    simp only [tiOk, Bool.and_eq_true, beq_iff_eq, and_assoc] at h1
-    obtain ⟨_, _, _, _, _, _, _, _, _, _, _, _, a13, _⟩ := h1
-    simp only [Bool.or_eq_true, Bool.and_eq_true, beq_iff_eq, decide_eq_true_eq, and_assoc] at a13
-    show (if ti.colors > 256 then 256 else ti.colors.toNat) ≠ 0
-    rcases a13 with ⟨hc, _⟩ | ⟨hc, _⟩ <;> split <;> omega
-  · intro c; rfl
+  intro c; rfl
 
 section
 variable (ti : Terminfo) (hx : XtermLike ti = true) (lg wg fz tc : Bool) (fit fit0 : Nat → Nat)
@@ -373,74 +417,74 @@ in the ground state, and every history of valid operations in the Layer-B domain
 the reference emulator fed exactly the bytes the byte-exact model writes shows after Show, in every unlocked visited cell,
 the payload last set there with the SGR state `penOf` (colours, all attributes, underline style and colour) its style
 denotes, wide runes with their continuation cell, the cursor where requested and visible. -/
-theorem xl_show_faithful_bytes (w h : Int) (hs : SizeOk w h) (e0 : Term) (he : Good rwClip e0)
+theorem xl_show_faithful_bytes (w h : Int) (hs : SizeOk w h) (e0 : Term) (he : Good rwClip e0) (hq : Quiet (renderCfgOf ti tc fit fit0) e0)
     (hw : (e0.grid.w : Int) = w) (hh : (e0.grid.h : Int) = h) (ops : List ScrOp)
     (hv : ∀ op ∈ ops, op.Valid (drawCfgOf ti lg wg fz) ∧ OpB (drawCfgOf ti lg wg fz) op) :
     let b := after (drawCfgOf ti lg wg fz) (renderCfgOf ti tc fit fit0) w h e0 ops
     (b.wd.trusted = true ∨ ¬ (b.wd.sw.ttyw = b.wd.sw.s.w ∧ b.wd.sw.ttyh = b.wd.sw.s.h)) →
       DisplaysBytes (drawCfgOf ti lg wg fz) (renderCfgOf ti tc fit fit0)
         (b.step (drawCfgOf ti lg wg fz) (renderCfgOf ti tc fit fit0) .show) :=
-  show_faithful_bytes_partial (cfgB_of_ti ti hx lg wg fz tc fit fit0 hwg hfit) w h hs e0 he hw hh ops hv
+  show_faithful_bytes_partial (cfgB_of_ti ti hx lg wg fz tc fit fit0 hwg hfit) w h hs e0 he hq hw hh ops hv
 
 /-- **Sync is faithful at the level of bytes on every `XtermLike` terminal, from arbitrary display contents** -/
-theorem xl_sync_faithful_bytes (w h : Int) (hs : SizeOk w h) (e0 : Term) (he : Good rwClip e0)
+theorem xl_sync_faithful_bytes (w h : Int) (hs : SizeOk w h) (e0 : Term) (he : Good rwClip e0) (hq : Quiet (renderCfgOf ti tc fit fit0) e0)
     (hw : (e0.grid.w : Int) = w) (hh : (e0.grid.h : Int) = h) (ops : List ScrOp)
     (hv : ∀ op ∈ ops, op.Valid (drawCfgOf ti lg wg fz) ∧ OpB (drawCfgOf ti lg wg fz) op) :
     DisplaysBytes (drawCfgOf ti lg wg fz) (renderCfgOf ti tc fit fit0)
       ((after (drawCfgOf ti lg wg fz) (renderCfgOf ti tc fit fit0) w h e0 ops).step (drawCfgOf ti lg wg fz)
         (renderCfgOf ti tc fit fit0) .sync) :=
-  sync_faithful_bytes_partial (cfgB_of_ti ti hx lg wg fz tc fit fit0 hwg hfit) w h hs e0 he hw hh ops hv
+  sync_faithful_bytes_partial (cfgB_of_ti ti hx lg wg fz tc fit fit0 hwg hfit) w h hs e0 he hq hw hh ops hv
 
 /-- **C09 on every `XtermLike` terminal**: over every draw history the strict tokenizer accepts every byte and the stream
 ends in the ground state -/
-theorem xl_output_wellformed (w h : Int) (hs : SizeOk w h) (e0 : Term) (he : Good rwClip e0)
+theorem xl_output_wellformed (w h : Int) (hs : SizeOk w h) (e0 : Term) (he : Good rwClip e0) (hq : Quiet (renderCfgOf ti tc fit fit0) e0)
     (hw : (e0.grid.w : Int) = w) (hh : (e0.grid.h : Int) = h) (ops : List ScrOp)
     (hv : ∀ op ∈ ops, op.Valid (drawCfgOf ti lg wg fz) ∧ OpB (drawCfgOf ti lg wg fz) op) :
     (after (drawCfgOf ti lg wg fz) (renderCfgOf ti tc fit fit0) w h e0 ops).e.malformed = [] ∧
       (after (drawCfgOf ti lg wg fz) (renderCfgOf ti tc fit fit0) w h e0 ops).e.st = .ground :=
-  output_wellformed_partial (cfgB_of_ti ti hx lg wg fz tc fit fit0 hwg hfit) w h hs e0 he hw hh ops hv
+  output_wellformed_partial (cfgB_of_ti ti hx lg wg fz tc fit fit0 hwg hfit) w h hs e0 he hq hw hh ops hv
 
 /-- the simulation invariant after every history, on every `XtermLike` terminal -/
-theorem xl_rep_after (w h : Int) (hs : SizeOk w h) (e0 : Term) (he : Good rwClip e0)
+theorem xl_rep_after (w h : Int) (hs : SizeOk w h) (e0 : Term) (he : Good rwClip e0) (hq : Quiet (renderCfgOf ti tc fit fit0) e0)
     (hw : (e0.grid.w : Int) = w) (hh : (e0.grid.h : Int) = h) (ops : List ScrOp)
     (hv : ∀ op ∈ ops, op.Valid (drawCfgOf ti lg wg fz) ∧ OpB (drawCfgOf ti lg wg fz) op) :
     Rep (drawCfgOf ti lg wg fz) (renderCfgOf ti tc fit fit0)
       (after (drawCfgOf ti lg wg fz) (renderCfgOf ti tc fit fit0) w h e0 ops).e
       (after (drawCfgOf ti lg wg fz) (renderCfgOf ti tc fit fit0) w h e0 ops).wd.t :=
-  rep_after_partial (cfgB_of_ti ti hx lg wg fz tc fit fit0 hwg hfit) w h hs e0 he hw hh ops hv
+  rep_after_partial (cfgB_of_ti ti hx lg wg fz tc fit fit0 hwg hfit) w h hs e0 he hq hw hh ops hv
 end
 
-/-- **the headline for the built-in database**: for each of the 22 `XtermLike` entries Show is faithful at the level of bytes
-(no hypothesis on the terminal left) -/
-theorem db_show_faithful_bytes : ∀ e ∈ Gen.db, e.name ∈ xtermLikeNames →
+/-- **the headline for the built-in database**: for each of the 41 entries of the class (`layerBNames`) Show is faithful at the
+level of bytes (no hypothesis on the terminal description left) -/
+theorem db_show_faithful_bytes : ∀ e ∈ Gen.db, e.name ∈ layerBNames →
     ∀ (lg wg fz tc : Bool) (fit fit0 : Nat → Nat), (wg = true → lg = true) → FitOk (renderCfgOf e tc fit fit0) →
-    ∀ (w h : Int), SizeOk w h → ∀ (e0 : Term), Good rwClip e0 → (e0.grid.w : Int) = w → (e0.grid.h : Int) = h →
+    ∀ (w h : Int), SizeOk w h → ∀ (e0 : Term), Good rwClip e0 → Quiet (renderCfgOf e tc fit fit0) e0 → (e0.grid.w : Int) = w → (e0.grid.h : Int) = h →
     ∀ (ops : List ScrOp), (∀ op ∈ ops, op.Valid (drawCfgOf e lg wg fz) ∧ OpB (drawCfgOf e lg wg fz) op) →
       let b := after (drawCfgOf e lg wg fz) (renderCfgOf e tc fit fit0) w h e0 ops
       (b.wd.trusted = true ∨ ¬ (b.wd.sw.ttyw = b.wd.sw.s.w ∧ b.wd.sw.ttyh = b.wd.sw.s.h)) →
         DisplaysBytes (drawCfgOf e lg wg fz) (renderCfgOf e tc fit fit0)
           (b.step (drawCfgOf e lg wg fz) (renderCfgOf e tc fit fit0) .show) :=
-  fun e he hn lg wg fz tc fit fit0 hwg hfit w h hs e0 hg hw hh ops hv =>
-    xl_show_faithful_bytes e (db_xtermlike' e he hn) lg wg fz tc fit fit0 hwg hfit w h hs e0 hg hw hh ops hv
+  fun e he hn lg wg fz tc fit fit0 hwg hfit w h hs e0 hg hq hw hh ops hv =>
+    xl_show_faithful_bytes e (db_layerB' e he hn) lg wg fz tc fit fit0 hwg hfit w h hs e0 hg hq hw hh ops hv
 
-theorem db_sync_faithful_bytes : ∀ e ∈ Gen.db, e.name ∈ xtermLikeNames →
+theorem db_sync_faithful_bytes : ∀ e ∈ Gen.db, e.name ∈ layerBNames →
     ∀ (lg wg fz tc : Bool) (fit fit0 : Nat → Nat), (wg = true → lg = true) → FitOk (renderCfgOf e tc fit fit0) →
-    ∀ (w h : Int), SizeOk w h → ∀ (e0 : Term), Good rwClip e0 → (e0.grid.w : Int) = w → (e0.grid.h : Int) = h →
+    ∀ (w h : Int), SizeOk w h → ∀ (e0 : Term), Good rwClip e0 → Quiet (renderCfgOf e tc fit fit0) e0 → (e0.grid.w : Int) = w → (e0.grid.h : Int) = h →
     ∀ (ops : List ScrOp), (∀ op ∈ ops, op.Valid (drawCfgOf e lg wg fz) ∧ OpB (drawCfgOf e lg wg fz) op) →
       DisplaysBytes (drawCfgOf e lg wg fz) (renderCfgOf e tc fit fit0)
         ((after (drawCfgOf e lg wg fz) (renderCfgOf e tc fit fit0) w h e0 ops).step (drawCfgOf e lg wg fz)
           (renderCfgOf e tc fit fit0) .sync) :=
-  fun e he hn lg wg fz tc fit fit0 hwg hfit w h hs e0 hg hw hh ops hv =>
-    xl_sync_faithful_bytes e (db_xtermlike' e he hn) lg wg fz tc fit fit0 hwg hfit w h hs e0 hg hw hh ops hv
+  fun e he hn lg wg fz tc fit fit0 hwg hfit w h hs e0 hg hq hw hh ops hv =>
+    xl_sync_faithful_bytes e (db_layerB' e he hn) lg wg fz tc fit fit0 hwg hfit w h hs e0 hg hq hw hh ops hv
 
-theorem db_output_wellformed : ∀ e ∈ Gen.db, e.name ∈ xtermLikeNames →
+theorem db_output_wellformed : ∀ e ∈ Gen.db, e.name ∈ layerBNames →
     ∀ (lg wg fz tc : Bool) (fit fit0 : Nat → Nat), (wg = true → lg = true) → FitOk (renderCfgOf e tc fit fit0) →
-    ∀ (w h : Int), SizeOk w h → ∀ (e0 : Term), Good rwClip e0 → (e0.grid.w : Int) = w → (e0.grid.h : Int) = h →
+    ∀ (w h : Int), SizeOk w h → ∀ (e0 : Term), Good rwClip e0 → Quiet (renderCfgOf e tc fit fit0) e0 → (e0.grid.w : Int) = w → (e0.grid.h : Int) = h →
     ∀ (ops : List ScrOp), (∀ op ∈ ops, op.Valid (drawCfgOf e lg wg fz) ∧ OpB (drawCfgOf e lg wg fz) op) →
       (after (drawCfgOf e lg wg fz) (renderCfgOf e tc fit fit0) w h e0 ops).e.malformed = [] ∧
         (after (drawCfgOf e lg wg fz) (renderCfgOf e tc fit fit0) w h e0 ops).e.st = .ground :=
-  fun e he hn lg wg fz tc fit fit0 hwg hfit w h hs e0 hg hw hh ops hv =>
-    xl_output_wellformed e (db_xtermlike' e he hn) lg wg fz tc fit fit0 hwg hfit w h hs e0 hg hw hh ops hv
+  fun e he hn lg wg fz tc fit fit0 hwg hfit w h hs e0 hg hq hw hh ops hv =>
+    xl_output_wellformed e (db_layerB' e he hn) lg wg fz tc fit fit0 hwg hfit w h hs e0 hg hq hw hh ops hv
 
 /-! ### C09: cursor addressing is accepted by the strict tokenizer for ALL positions -/
 
@@ -452,10 +496,13 @@ theorem cup_accepted_all (hx : XtermLike rc.ti = true) (ff : Bool) (x y : Nat)
     Tcell.Props.C09.accepts ff (Render.render rc (.goto x y)) = true := by
   unfold Tcell.Props.C09.accepts
   have g : Good (fun _ => 1) (Term.init { w := 4, h := 2, ffClears := ff }) := ⟨rfl, rfl, rfl, rfl, rfl, rfl, rfl, rfl⟩
-  rw [xl_goto_effect hx g x y hx1 hy1]
+  rw [xl_goto_effect (capsOk_of_xl hx) g x y hx1 hy1]
   rfl
 
 /-! ### the hypotheses are satisfiable -/
+
+/-- a freshly initialised emulator is `Quiet` for every terminal description: no hyperlink active, cursor visible -/
+theorem quiet_init (rc : RenderCfg) (cfg : Config) : Quiet rc (Term.init cfg) := ⟨fun _ => ⟨rfl, rfl⟩, fun _ => rfl⟩
 
 example : SizeOk 80 24 := by unfold SizeOk TParm.maxInt64; omega
 example : Good rwClip (Term.init { w := 80, h := 24, rw := rwClip }) := ⟨rfl, rfl, rfl, rfl, rfl, rfl, rfl, rfl⟩
@@ -478,10 +525,10 @@ def opsDemo : List ScrOp := [.setContent 0 0 0x4e16 [] stDemo, .setContent 2 0 0
 def bDemo : BWorld := (after dcDemo rcDemo 4 2 e0Demo opsDemo).step dcDemo rcDemo .show
 
 theorem e44_mem : Gen.e44 ∈ Gen.db := by simp [Gen.db]
-theorem e44_name : Gen.e44.name ∈ xtermLikeNames := by decide
+theorem e44_name : Gen.e44.name ∈ layerBNames := by decide
 
 theorem fitDemo : FitOk rcDemo := by
-  intro col
+  intro _ col
   have : Render.nColors rcDemo = 256 := by decide
   have e : rcDemo.fit col = 2^32 + 17 := rfl
   rw [this, e]; omega
@@ -499,8 +546,8 @@ theorem opsDemo_ok : ∀ op ∈ opsDemo, op.Valid dcDemo ∧ OpB dcDemo op := by
 /-- every hypothesis of `db_show_faithful_bytes` holds for this world -/
 example : DisplaysBytes dcDemo rcDemo bDemo :=
   db_show_faithful_bytes Gen.e44 e44_mem e44_name true false true false _ _ (fun h => absurd h (by decide)) fitDemo 4 2
-    (by unfold SizeOk TParm.maxInt64; omega) e0Demo ⟨rfl, rfl, rfl, rfl, rfl, rfl, rfl, rfl⟩ rfl rfl opsDemo opsDemo_ok
-    (Or.inl (by decide +kernel))
+    (by unfold SizeOk TParm.maxInt64; omega) e0Demo ⟨rfl, rfl, rfl, rfl, rfl, rfl, rfl, rfl⟩ (quiet_init _ _) rfl rfl opsDemo
+    opsDemo_ok (Or.inl (by decide +kernel))
 
 set_option maxRecDepth 100000 in
 /-- … and this is what the emulator grid shows (kernel evaluation of the emulator on the bytes of the model): the wide rune
@@ -524,5 +571,89 @@ set_option maxRecDepth 100000 in
 example : (bDirect.e.grid.get 0 0).pen =
       { fg := .idx 196, bg := .rgb 0x10 0x20 0x30, bold := true, ul := 3, ulColor := .idx 33 } ∧
     (bDirect.e.grid.get 0 0).pen = penOf rcDirect stDemo ∧ bDirect.e.malformed = [] := by decide +kernel
+
+/-! ### non-vacuity for the widened class: vt100 — monochrome, `$<n>` padding, no `civis`/`cnorm`, no hyperlink strings -/
+
+def rcVt : RenderCfg := renderCfgOf Gen.e31 false (fun _ => 0) (fun c => if c = 2^32 + 4 then Render.colorBlack else Render.colorWhite)
+def dcVt : DrawCfg := drawCfgOf Gen.e31 true false true
+/-- navy (dark: `fit0` answers black, so reverse video is flipped) on red, bold, underlined -/
+def stVt : Style := { fg := 2^32 + 4, bg := 2^32 + 1, ulStyle := 1, attrs := 1 }
+/-- the requested cursor position is off-screen: on this terminal the cursor is parked bottom-right -/
+def opsVt : List ScrOp := [.setContent 0 0 0x4e16 [] stVt, .setContent 2 0 0x61 [0x301] {}, .showCursor 9 9]
+def bVt : BWorld := (after dcVt rcVt 4 2 e0Demo opsVt).step dcVt rcVt .show
+
+theorem e31_mem : Gen.e31 ∈ Gen.db := by simp [Gen.db]
+theorem e31_name : Gen.e31.name ∈ layerBNames := by decide
+
+/-- a monochrome screen has no palette: `FitOk` asks nothing -/
+theorem fitVt : FitOk rcVt := fun h => absurd (by decide) h
+
+theorem opsVt_ok : ∀ op ∈ opsVt, op.Valid dcVt ∧ OpB dcVt op := by
+  intro op hop
+  simp only [opsVt, List.mem_cons, List.not_mem_nil, or_false] at hop
+  rcases hop with rfl | rfl | rfl
+  · exact ⟨by simp [ScrOp.Valid, attrInvalid, stVt], by simp, rfl⟩
+  · refine ⟨by simp [ScrOp.Valid, attrInvalid], ?_, rfl⟩
+    intro k hk; simp only [List.mem_singleton] at hk; subst hk
+    exact ⟨by decide +kernel, by decide, by decide⟩
+  · exact ⟨by simp [ScrOp.Valid], trivial⟩
+
+example : DisplaysBytes dcVt rcVt bVt :=
+  db_show_faithful_bytes Gen.e31 e31_mem e31_name true false true false _ _ (fun h => absurd h (by decide)) fitVt 4 2
+    (by unfold SizeOk TParm.maxInt64; omega) e0Demo ⟨rfl, rfl, rfl, rfl, rfl, rfl, rfl, rfl⟩ (quiet_init _ _) rfl rfl opsVt
+    opsVt_ok (Or.inl (by decide +kernel))
+
+set_option maxRecDepth 100000 in
+/-- … and what the emulator shows: no colours, bold + underline + reverse video (flipped by the dark foreground), the cursor
+parked in the bottom-right cell and still visible, not a byte of padding or of an OSC 8 in the stream (`malformed = []`) -/
+example : (bVt.e.grid.get 0 0).runes = [0x4e16] ∧
+    (bVt.e.grid.get 0 0).pen = { bold := true, ul := 1, reverse := true } ∧
+    (bVt.e.grid.get 0 0).pen = penOf rcVt stVt ∧
+    (bVt.e.grid.get 0 0).garbage = false ∧ (bVt.e.grid.get 1 0).cont = true ∧
+    (bVt.e.grid.get 2 0).runes = [0x61, 0x301] ∧ (bVt.e.grid.get 2 0).pen = {} ∧
+    (bVt.e.cx, bVt.e.cy) = (3, 1) ∧ bVt.e.modes.cursorVisible = true ∧ bVt.e.malformed = [] ∧
+    Render.renderAll rcVt [.goto 0 0, .setPen stVt] = [27,91,49,59,49,72, 27,91,109,15, 27,91,49,109, 27,91,52,109, 27,91,55,109] := by
+  decide +kernel
+
+/-! ### the corner trick at the level of bytes: cygwin -/
+
+set_option maxRecDepth 100000 in
+/-- of the four corner-trick entries, cygwin is the one all of whose strings are in the class (`CapsOk`); its `ich1` is `CSI @` -/
+theorem db_corner_caps : (Gen.db.all fun e => (CapsOk e && !XtermLike e) == (e.name == "cygwin")) = true ∧
+    Gen.e05.name = "cygwin" ∧ CapsOk Gen.e05 = true ∧ Tcell.Spec.TermCaps.stripPadding Gen.e05.insertChar = [27, 91, 64] := by
+  decide +kernel
+
+/-- the corner trick for the configuration the driver builds from a terminal description whose strings are in the class -/
+theorem ti_corner_trick_bytes (ti : Terminfo) (hx : CapsOk ti = true)
+    (hi : Tcell.Spec.TermCaps.stripPadding ti.insertChar = [27, 91, 64]) (lg wg fz tc : Bool) (fit fit0 : Nat → Nat)
+    (hfit : FitOk (renderCfgOf ti tc fit fit0)) : CornerTrickFx (drawCfgOf ti lg wg fz) (renderCfgOf ti tc fit fit0) :=
+  xl_corner_trick_bytes (dc := drawCfgOf ti lg wg fz) (rc := renderCfgOf ti tc fit fit0) rwClip_ok.2 hx rfl hfit rfl hi
+
+/-- **the first half of the bottom-right corner trick on cygwin, at the level of bytes**, with no hypothesis about the terminal
+description: from any emulator state that represents the abstract terminal, `goto (w-2, y); setPen s; put glyph; goto (w-2, y);
+ich1` puts the glyph with its rendition into the last column; the cursor never enters the last column (no pending wrap) -/
+theorem cygwin_corner_bytes (lg wg fz tc : Bool) (fit fit0 : Nat → Nat) (hfit : FitOk (renderCfgOf Gen.e05 tc fit fit0)) :
+    CornerTrickFx (drawCfgOf Gen.e05 lg wg fz) (renderCfgOf Gen.e05 tc fit fit0) :=
+  ti_corner_trick_bytes Gen.e05 db_corner_caps.2.2.1 db_corner_caps.2.2.2 lg wg fz tc fit fit0 hfit
+
+/-- … and the whole trick as the model performs it (Show on a 4×2 cygwin screen with `x` set in the bottom-right cell and `a`
+left of it): the emulator shows both, the cursor ends at home, nothing scrolled (row 0 still blank), no complaint -/
+def rcCyg : RenderCfg := renderCfgOf Gen.e05 false (fun _ => 2^32) (fun _ => 2^32)
+def dcCyg : DrawCfg := drawCfgOf Gen.e05 true false true
+def bCyg : BWorld :=
+  (after dcCyg rcCyg 4 2 e0Demo [.setContent 2 1 0x61 [] {}, .setContent 3 1 0x78 [] { attrs := 1 }]).step dcCyg rcCyg .show
+
+set_option maxRecDepth 100000 in
+example : dcCyg.cornerTrick = true ∧
+    (bCyg.e.grid.get 3 1).runes = [0x78] ∧ (bCyg.e.grid.get 3 1).pen = { bold := true } ∧ (bCyg.e.grid.get 3 1).garbage = false ∧
+    (bCyg.e.grid.get 2 1).runes = [0x61] ∧ (bCyg.e.grid.get 2 1).pen = {} ∧ (bCyg.e.grid.get 2 1).garbage = false ∧
+    (bCyg.e.grid.get 0 0).runes = [32] ∧ bCyg.e.pendingWrap = false ∧ bCyg.e.malformed = [] := by decide +kernel
+
+/-- aixterm: `op` (`CSI 32 m CSI 40 m`) sets green on black, and `penOf` says so: a style with `ColorReset` as foreground -/
+def rcAix : RenderCfg := renderCfgOf Gen.e00 false (fun _ => 2^32) (fun _ => 2^32)
+example : Gen.e00.name = "aixterm" ∧ penOf rcAix { fg := colorReset } = { fg := .idx 2, bg := .idx 0 } ∧
+    (e0Demo.feed (Render.render rcAix (.setPen { fg := colorReset }))).pen = penOf rcAix { fg := colorReset } ∧
+    (e0Demo.feed (Render.render rcAix (.setPen { fg := colorReset, bg := 2^32 + 1 }))).pen = { fg := .idx 2, bg := .idx 1 } := by
+  decide +kernel
 
 end Tcell.Props.C01B
